@@ -13,6 +13,7 @@ import (
 	"fmt"
 	"net/netip"
 	"testing"
+	"time"
 
 	"github.com/osrg/gobgp/v4/api"
 	"github.com/osrg/gobgp/v4/internal/pkg/verifkit"
@@ -32,6 +33,9 @@ type c09Case struct {
 	Src     rsPeer     `json:"src"`
 	Targets []rsPeer   `json:"targets"`
 	Routes  []c09Route `json:"routes"`
+	// Hosts > 0: route 0 (IPv4 only) is also announced for this many /32 prefixes; afterwards the targets start new
+	// sessions, so that the exported copies are packed in one go into UPDATEs filled to the size limit
+	Hosts int `json:"hosts,omitempty"`
 }
 
 func c09DrawPeer(t *rapid.T, l string, idx int, g rsGlobal, kinds []int) rsPeer {
@@ -148,6 +152,9 @@ func drawC09(t *rapid.T) c09Case {
 		v6 := rapid.IntRange(0, 3).Draw(t, fmt.Sprintf("r%dv6", i)) == 0
 		c.Routes = append(c.Routes, c09Route{V6: v6, Attrs: c09DrawAttrs(t, fmt.Sprintf("r%d", i), c.SrcKind, c.Global, v6, c.Targets)})
 	}
+	if !c.Routes[0].V6 && rapid.IntRange(0, 7).Draw(t, "hostsk") == 0 {
+		c.Hosts = rapid.IntRange(820, 1300).Draw(t, "hosts")
+	}
 	return c
 }
 
@@ -250,6 +257,104 @@ func runC09(t *testing.T) func(c c09Case, st *verifkit.Stats) *verifkit.Failure 
 						st.Label("advertised")
 					}
 				}
+			}
+			// ---- many host routes with the attributes of route 0, told to new sessions of the targets ----
+			if c.Hosts > 0 {
+				r0 := c.Routes[0]
+				hostPfx := func(i int) netip.Prefix {
+					return netip.PrefixFrom(netip.AddrFrom4([4]byte{10, 209, byte(i >> 8), byte(i)}), 32)
+				}
+				var nl []bgp.PathNLRI
+				var paths []*apiutil.Path
+				chunk := 300
+				{
+					x, _ := bgp.NewIPAddrPrefix(hostPfx(0))
+					al := 0
+					for _, a := range r0.Attrs.toBGP(x, false, 0) {
+						b, _ := a.Serialize()
+						al += len(b)
+					}
+					if room := (4096 - 23 - al) / 5; room < chunk {
+						chunk = room
+					}
+					if chunk < 1 {
+						chunk = 1
+					}
+				}
+				for i := 0; i < c.Hosts; i++ {
+					x, _ := bgp.NewIPAddrPrefix(hostPfx(i))
+					if src == nil {
+						paths = append(paths, &apiutil.Path{Family: bgp.RF_IPv4_UC, Nlri: x, Attrs: r0.Attrs.toBGP(x, false, 0)})
+						continue
+					}
+					nl = append(nl, bgp.PathNLRI{NLRI: x})
+					if len(nl) == chunk || i == c.Hosts-1 {
+						if err := sess[src.Addr].send(bgp.NewBGPUpdateMessage(nil, r0.Attrs.toBGP(x, false, 0), nl), rsTxOpt(src)); err != nil {
+							return verifkit.Failf("send", "%v", err)
+						}
+						nl = nil
+					}
+				}
+				if src == nil {
+					if _, err := n.s.AddPath(apiutil.AddPathRequest{Paths: paths}); err != nil {
+						return verifkit.Failf("addpath", "%v", err)
+					}
+				}
+				n.settle()
+				for ti := range c.Targets {
+					sess[c.Targets[ti].Addr].close()
+				}
+				n.settle()
+				n.advance(6 * time.Second)
+				in, usable := rsInbound(c.Global, src, r0.Attrs)
+				for ti := range c.Targets {
+					dst := &c.Targets[ti]
+					ss, _, err := n.establish(dst.def(), rsOpenSpec(dst))
+					if err != nil {
+						return verifkit.Failf("establish", "%s again: %v", dst.Addr, err)
+					}
+					n.advance(time.Second)
+					rx, eof, _ := ss.snapshot()
+					if eof {
+						return verifkit.Failf("target-session-down", "the new session to target %d went down", ti)
+					}
+					view := newRsView()
+					view.feed(rx, rsRxOpt(dst))
+					if len(view.errs) > 0 {
+						return verifkit.Failf("view-error", "target %d: %s", ti, view.errs[0])
+					}
+					var want rsAttrs
+					adv := false
+					if usable {
+						want, adv, _ = rsExport(c.Global, src, in, dst, false)
+					}
+					missing, extra, wrong := 0, 0, ""
+					for i := 0; i < c.Hosts; i++ {
+						got, have := view.entries[rsViewKey{Prefix: hostPfx(i).String()}]
+						switch {
+						case have && !adv:
+							extra++
+						case !have && adv:
+							missing++
+						case have && adv:
+							if ok, diff := rsAttrsEqual(rsNormalise(got.Attrs), rsNormalise(want)); !ok && wrong == "" {
+								wrong = diff
+							}
+						}
+					}
+					st.SubEval(1)
+					desc := fmt.Sprintf("%d host routes from %s to the new session of target %d %s", c.Hosts, c09Who(src), ti, c09Who(dst))
+					if missing > 0 {
+						return verifkit.Failf("hosts-not-advertised", "%s: %d of them were not advertised\n sent attrs %s", desc, missing, verifkit.JSON(r0.Attrs))
+					}
+					if extra > 0 {
+						return verifkit.Failf("advertised-but-forbidden", "%s: %d of them were advertised although the route must not be", desc, extra)
+					}
+					if wrong != "" {
+						return verifkit.Failf("wrong-export-attrs", "%s: %s", desc, wrong)
+					}
+				}
+				st.Label("host-routes")
 			}
 			// producing the targets' copies must not alter what is stored for the source
 			if src != nil {
